@@ -6,8 +6,8 @@ import WacModel.Resolve
     prog <wac text> <self> L <npkgs> pkg* P <nstmts> stmt* <observation>
       pkg   ::= <name> <version|\e;> <nimports> (name kind)* <nexports> (name kind)*
       kind  ::= F <sig> | I <id|\e;> <n> (name kind)* | T <id|\e;> <n> (name kind)*
-      stmt  ::= imp <id> <as|\e;> ty | let <id> expr | exp expr opt
-      ty    ::= path <pkg> <ver|\e;> <nsegs> seg* | func <sig> | iface <n> (name sig)*
+      stmt  ::= imp <id> <as|\e;> ty | let <id> expr | exp expr opt | ifc <id> <n> (name sig)*
+      ty    ::= path <pkg> <ver|\e;> <nsegs> seg* | func <sig> | iface <n> (name sig)* | ident <id>
       opt   ::= none | as <name> | spread
       expr  ::= id <x> | new <pkg> <ver|\e;> <nargs> arg* | par expr | acc expr <id> | nacc expr <str>
       arg   ::= inf <x> | named (I|S) <name> expr | spr <x> | fill
@@ -157,7 +157,18 @@ def pStmt : Toks → Option (Stmt × Toks)
             | some (fs, r) => some (.imp id (optStr as) (.iface fs), r)
             | none => none
           | _ => none
+        else if is ty "ident" then
+          match r with
+          | x :: r => some (.imp id (optStr as) (.ident x), r)
+          | _ => none
         else none
+      | _ => none
+    else if is t "ifc" then
+      match r with
+      | id :: n :: r =>
+        match pMany pFunc (natOf n) r with
+        | some (fs, r) => some (.iface id fs, r)
+        | none => none
       | _ => none
     else if is t "let" then
       match r with
